@@ -370,6 +370,8 @@ def _to_py(val, kind):
         return int(val)
     if kind == 'count':
         return max(1, int(round(float(val))))
+    if kind == 'count0':
+        return max(0, int(round(float(val))))
     if kind == 'bool':
         return bool(val)
     if isinstance(val, fractions.Fraction):
@@ -421,6 +423,9 @@ def run_scenarios(scens, patches_cm, timeout_ms=10000, max_paths=4000, wall_s=12
             elif kind == 'count':
                 vars_[name] = SymReal(z3.Real(name))
                 eng.assume_global(z3.Real(name) >= 1)
+            elif kind == 'count0':
+                vars_[name] = SymReal(z3.Real(name))
+                eng.assume_global(z3.Real(name) >= 0)
             elif kind == 'int':
                 vars_[name] = SymInt(z3.Int(name))
             elif kind == 'char':
@@ -497,6 +502,7 @@ def run_scenarios(scens, patches_cm, timeout_ms=10000, max_paths=4000, wall_s=12
                                 ax = list(ax) + list(scen.concretise)
                             cnts = [vars_[n].t for n, k in scen.inputs.items() if k == 'count']
                             dom = [z3.Or(*[c == i for i in range(1, 9)]) for c in cnts]
+                            dom += [z3.Or(*[vars_[n].t == i for i in range(0, 9)]) for n, k in scen.inputs.items() if k == 'count0']
                             tries = []
                             # prefer small integral inputs: they replay without float artefacts (complex powers, overflow)
                             small = [z3.Or(*[vars_[n].t == i for i in (2, 3, 1, 4, 0, 5)]) for n, k in scen.inputs.items() if k == 'real']
@@ -594,6 +600,8 @@ def _sample(scen, rnd, tries=60):
                 vals[name] = ord(rnd.choice(CHAR_POOL))
             elif kind == 'count':
                 vals[name] = rnd.randint(1, 5)
+            elif kind == 'count0':
+                vals[name] = rnd.choice([0, 0, 1, 2, 3])
             else:
                 vals[name] = rnd.random() < 0.5
         v = V(**vals, **scen.consts)
